@@ -134,8 +134,9 @@ class Oracle:
     """The property read literally, with Python's own list semantics for indices and slices: a vector is the list of its
     entries; a view addresses the same storage; construction = first n, zero filled; operators act entry-wise."""
 
-    def __init__(self, npv=False):
+    def __init__(self, npv=False, dyn=False):
         self.R = []
+        self.dyn = dyn           # `dyn`/`dynj` scripts: DynamicVector (size = number of entries given; operands must have equal size)
         self.npv = npv           # `npv` scripts: the registers are NumPy arrays accessed through a C++ NumPyVector
 
     def fresh(self, kind, vals):
@@ -149,8 +150,11 @@ class Oracle:
         self.R.append(o)
         return "%s[%s]" % (kind, ",".join(fr(v) for v in o.vals()))
 
-    @staticmethod
-    def conv(n, vals):
+    def conv(self, n, vals):
+        if self.dyn:
+            if len(vals) != n:
+                raise Exc("ValueError")       # operands of different size: an exception, never an access outside the object
+            return list(vals)
         return (list(vals) + [Fraction(0)] * n)[:n]
 
     def dump(self):
@@ -159,11 +163,13 @@ class Oracle:
     def step(self, t, hint=""):
         op = t[0]
         if op == "new":
+            if self.dyn:
+                return self.fresh("d", qlist(t[3]))
             return self.fresh("a" if self.npv else "v", self.conv(int(t[1]), qlist(t[3])))
         x = self.R[int(t[1])]
         n = len(x)
         xv = x.vals()
-        vec = lambda vals: self.fresh("v", vals)
+        vec = lambda vals: self.fresh("d" if self.dyn else "v", vals)
         if op == "view":
             return self.shared("a", x.store, list(x.idx))
         if op == "slice":
@@ -190,18 +196,27 @@ class Oracle:
             return "i:%d" % n
         if op == "iter":
             return "l[" + ",".join(fr(v) for v in xv) + "]"
+        if self.dyn and op in ("str", "repr"):
+            return '"Dune::DynamicVector: (' + ", ".join(fmt6(v) for v in xv) + ')"'
+        if self.dyn and op == "assign":        # DynamicVector assignment takes the size of the right-hand side: a fresh storage
+            y = self.R[int(t[2])].vals()
+            x.store[:] = list(y); x.idx[:] = list(range(len(y)))
+            return "ok"
         if op == "str":
             return '"(' + ", ".join(fmt6(v) for v in xv) + ')"'
         if op == "repr":
             return '"Dune::FieldVector<%d>(' % n + ", ".join(fmt6(v) for v in xv) + ')"'
-        if op in ("add", "sub", "dot", "eq", "ne", "iadd", "isub", "assign"):
+        cmpop = self.dyn and op in ("eq", "ne", "eql")
+        if op in ("add", "sub", "dot", "eq", "ne", "iadd", "isub", "assign") and not cmpop:
             y = self.conv(n, self.R[int(t[2])].vals())
-        elif op in ("addl", "raddl", "subl", "rsubl", "dotl", "eql", "iaddl"):
+        elif op in ("addl", "raddl", "subl", "rsubl", "dotl", "eql", "iaddl") and not cmpop:
             y = self.conv(n, qlist(t[2]))
         if op in ("add", "addl", "raddl"): return vec([a + b for a, b in zip(xv, y)])
         if op in ("sub", "subl"): return vec([a - b for a, b in zip(xv, y)])
         if op == "rsubl": return vec([b - a for a, b in zip(xv, y)])
         if op in ("dot", "dotl"): return "s:" + fr(sum((a * b for a, b in zip(xv, y)), Fraction(0)))
+        if self.dyn and op in ("eq", "ne", "eql"):      # vectors of different size are unequal (no exception from ==)
+            y = self.R[int(t[2])].vals() if op != "eql" else qlist(t[2])
         if op in ("eq", "eql"): return "b:%d" % (1 if xv == y else 0)
         if op == "ne": return "b:%d" % (0 if xv == y else 1)
         if op in ("iadd", "iaddl"): x.put([a + b for a, b in zip(xv, y)]); return "ok"
@@ -223,7 +238,7 @@ class Oracle:
             if op == "rsubf": return vec([s - xv[0]])
         if op in ("muli", "rmuli"):
             k = int(t[2])
-            if n == 1 and not hint.startswith("v["):
+            if n == 1 and not self.dyn and not hint.startswith("v["):
                 return "s:" + fr(xv[0] * k)          # for n = 1 the product may come back as the scalar
             return vec([a * k for a in xv])
         if op in ("addi", "subi", "raddi", "rsubi"):
@@ -247,11 +262,24 @@ class Oracle:
 
 
 def split_case(case):
-    return [s.split() for s in case.split(";") if s.strip() and s.strip() != "npv"]
+    return [s.split() for s in case.split(";") if s.strip() and s.strip() not in ("npv", "dyn", "dynj")]
+
+
+def is_dyn(case):
+    return case.startswith("dyn")
+
+
+def prefix_of(case):
+    h = case.split(";", 1)[0].strip()
+    return h + " ; " if h in ("npv", "dyn", "dynj") else ""
 
 
 def is_npv(case):
-    return case.startswith("npv") or case.startswith("tv")       # oracle-only streams (no Coq model op)
+    return case.startswith("npv")
+
+
+def spec_line(case, impl_line=""):
+    return tv_oracle(case) if is_tv(case) else oracle_line(case, impl_line)
 
 
 def is_tv(case):
@@ -279,11 +307,13 @@ def oracle_line(case, impl_line):
     """Run the oracle on the script, taking from the impl's line only the hint whether an n=1 integer product came back as a vector."""
     ops = split_case(case)
     itoks = impl_line.split(" # ")[0].split(" ; ") if impl_line else []
-    O, toks = Oracle(is_npv(case)), []
+    O, toks = Oracle(is_npv(case), is_dyn(case)), []
     for j, t in enumerate(ops):
         hint = itoks[j] if j < len(itoks) else ""
         try:
             o = O.step(t, hint)
+        except Exc as e:
+            o = "!" + str(e)
         except (IndexError, KeyError, ValueError, ZeroDivisionError) as e:
             o = "ORACLE-UNDEFINED(%s)" % type(e).__name__
         if t[0] in MUTATING:
@@ -303,14 +333,22 @@ def judge(case, impl_line):
     exp = oracle_line(case, impl_line)
     if exp == impl_line:
         return None
+    if impl_line.startswith(("CRASH", "HANG", "NOT-RUN", "DRIVER-ERROR")):
+        kind = "size-mismatch:crash" if (is_dyn(case) and "!ValueError" in oracle_line(case, "")) else "crash"
+        return "C20:%s%s" % (prefix_of(case).replace(" ; ", ":"), kind), "the interpreter did not survive the script: %s; the property requires %s" % (impl_line[:160], exp), case
     ops = split_case(case)
     et = exp.split(" # ")[0].split(" ; ")
     it = impl_line.split(" # ")[0].split(" ; ")
     for j, t in enumerate(ops):
         a = it[j] if j < len(it) else "(missing)"
         if a != et[j]:
-            sig = "C20:" + ("npv:" if is_npv(case) else "") + t[0]
-            if is_npv(case):
+            sig = "C20:" + prefix_of(case).replace(" ; ", ":") + t[0]
+            if is_dyn(case):
+                if t[0] in ("get", "set") and int(t[2]) < 0:
+                    sig = "C20:%snegative-index" % prefix_of(case).replace(" ; ", ":")
+                elif et[j].startswith("!ValueError"):
+                    sig = "C20:%ssize-mismatch" % prefix_of(case).replace(" ; ", ":")
+            elif is_npv(case):
                 pass
             elif t[0] == "set" and int(t[2]) < 0 and a.startswith("!TypeError"):
                 sig += ":negative-index"
@@ -318,7 +356,7 @@ def judge(case, impl_line):
                 sig += ":" + t[2]
             elif a.startswith("!") or et[j].startswith("!"):
                 sig += ":exception"
-            shrunk = ("npv ; " if is_npv(case) else "") + " ; ".join(" ".join(x) for x in ops[:j + 1])
+            shrunk = prefix_of(case) + " ; ".join(" ".join(x) for x in ops[:j + 1])
             return sig, "op %d `%s`: impl gives %s, the property requires %s" % (j, " ".join(t), a, et[j]), shrunk
     return "C20:final-dump", "final register contents differ: impl %s, required %s" % (impl_line.split(" # ")[-1], exp.split(" # ")[-1]), case
 
@@ -401,7 +439,7 @@ def gen(ctx, sizes):
             cases.append("new %d list %s ; norm1 0 ; norm22 0 ; norminf 0 ; str 0 ; repr 0 ; neg 0 ; str 1" % (n, ql(rvals(n))))
         cases.append("new %d list %s ; copymeth 0 ; set 0 0 5 ; set 1 0 6 ; view 0 ; copymeth 2 ; copyctor 2 ; set 2 -1 8" % (n, ql(rvals(n))))
     # (6) NumPyVector (numpyvector.hh): a C++ dense vector wrapped around a NumPy array / view without copying; every access
-    #     goes through the C++ object, the array is observed from Python.  Judged by the oracle only (no Coq model op).
+    #     goes through the C++ object, the array is observed from Python (model: C20_N* ops, theorem C20_numpy_view).
     for n in (1, 2, 3, 6):
         base = [Fraction(i + 1) for i in range(n)]
         for (a, b, c) in [("_", "_", "_"), ("_", "_", "2"), ("1", "_", "_"), ("_", "_", "-1"), ("-2", "_", "_"), ("_", "-1", "2"), ("_", "_", "-2"), ("1", "1", "_")]:
@@ -411,9 +449,28 @@ def gen(ctx, sizes):
             cases.append(" ; ".join(pre + ["len 1"] + ["get 1 %d" % i for i in range(m)] + ["norm22 1", "norm1 1", "norminf 1"]))
             if m:
                 cases.append(" ; ".join(pre + ["set 1 %d 50" % (m - 1), "set 1 0 -7/2", "imuls 1 2", "norm22 1", "iadds 1 1", "isubs 1 1/2", "idivs 1 4", "get 1 0"]))
-    # (7) TupleVector (thorough tier: every type tuple is a JIT module): types and values preserved, copy independent
-    if not ctx.quick:
-        cases += TV_CASES
+    # (8) DynamicVector: `dyn` = dune.common.DynamicVector from the PREBUILT _common.so of /repo/_build (a test of that
+    #     extension, not of the checked tree's C++), `dynj` = DynamicVector<float> bound just-in-time with the checked tree's
+    #     dynvector.hh/densevector.hh; both wrapped by the checked tree's python/dune/common/__init__.py.  Oracle-judged TEST.
+    for pre in ("dyn", "dynj"):
+        for n in (1, 3):
+            vals = [Fraction(i + 1) for i in range(n)]
+            cases.append("%s ; new %d list %s ; " % (pre, n, ql(vals)) + " ; ".join("get 0 %d" % i for i in range(-n - 2, n + 2)))
+            for i in range(-n - 1, n + 1):
+                cases.append("%s ; new %d list %s ; set 0 %d 50 ; get 0 %d ; iter 0" % (pre, n, ql(vals), i, i))
+            w = [Fraction(10 * (i + 1)) for i in range(n)]
+            cases.append("%s ; new %d list %s ; new %d list %s ; len 0 ; iter 0 ; repr 0 ; str 0 ; add 0 1 ; sub 0 1 ; dot 0 1 ; eq 0 1 ; ne 0 1 ; eq 0 0 ; "
+                         "iadd 0 1 ; isub 1 0 ; muls 0 2 ; rmuls 0 1/2 ; divs 0 4 ; muli 0 3 ; neg 0 ; pos 0 ; imuls 0 2 ; idivs 0 4 ; iadds 0 1 ; isubs 0 1/2 ; "
+                         "norm1 0 ; norm22 0 ; norminf 0 ; assign 0 1 ; set 0 0 7 ; get 1 0" % (pre, n, ql(vals), n, ql(w)))
+            cases.append("%s ; new %d list %s ; addl 0 %s ; raddl 0 %s ; subl 0 %s ; rsubl 0 %s ; dotl 0 %s ; eql 0 %s ; iaddl 0 %s" % ((pre, n, ql(vals)) + (ql(w),) * 7))
+        cases.append("%s ; new 0 list - ; len 0 ; iter 0 ; get 0 0 ; get 0 -1 ; norm1 0" % pre)
+        cases.append("%s ; new 3 list 1,2,3 ; new 2 list 5,6 ; assign 0 1 ; len 0 ; set 0 0 9 ; get 1 0" % pre)
+        # operands of different size (few: the unrepaired code may abort the interpreter)
+        for body in ("new 3 list 1,2,3 ; new 1 list 1 ; add 0 1", "new 1 list 1 ; new 3 list 1,2,3 ; sub 0 1", "new 3 list 1,2,3 ; addl 0 1",
+                     "new 3 list 1,2,3 ; new 2 list 1,2 ; dot 0 1", "new 3 list 1,2,3 ; new 2 list 1,2 ; iadd 0 1", "new 3 list 1,2,3 ; new 2 list 1,2 ; eq 0 1"):
+            cases.append("%s ; %s" % (pre, body))
+    # (7) TupleVector (every type tuple is a JIT module: one in quick, three in thorough): model c20_tv_*, theorem C20_tuple
+    cases += TV_CASES[:1] if ctx.quick else TV_CASES
     # (5) random op sequences mixing views, copies and writes: a weighted walk over the shape of the registers
     N = 1500 if ctx.quick else 20000
     for _ in range(N):
@@ -493,7 +550,7 @@ def run(ctx):
     model = V.build_model(ctx)
     env, runner, origin = setup_env(ctx)
     sizes = sizes_of(ctx)
-    prebuild(ctx, env, runner, sizes + ["npv"] + ([] if ctx.quick else TV_CASES))
+    prebuild(ctx, env, runner, sizes + ["npv", "dynj"] + (TV_CASES[:1] if ctx.quick else TV_CASES))
     rc, info = V.sh(impl_cmd(runner) + ["--info"], env=env, timeout=120)
     origin["resolved"] = [l for l in info.split("\n") if " = " in l]
     cases = gen(ctx, sizes)
@@ -506,11 +563,12 @@ def run(ctx):
     writes = lambda c: any(t[0] in MUTATING for t in split_case(c))
     negstep = lambda c: any(t[0] == "slice" and t[4].startswith("-") for t in split_case(c))
     only_npv = lambda c: c.startswith("npv")
-    groups = {"main": [i for i, c in enumerate(cases) if not only_npv(c)],
+    groups = {"main": [i for i, c in enumerate(cases) if not only_npv(c) and not is_dyn(c)],
+              "dyn": [i for i, c in enumerate(cases) if is_dyn(c)],
               "npv_ro": [i for i, c in enumerate(cases) if only_npv(c) and not writes(c)]}
     io = [None] * len(cases)
     tmo = 240 if ctx.quick else 1200
-    for g in ("main", "npv_ro"):
+    for g in ("main", "dyn", "npv_ro"):
         for i, o in zip(groups[g], V.run_cases(ctx, impl_cmd(runner), [cases[i] for i in groups[g]], tag="impl_" + g, timeout=tmo, env=env)):
             io[i] = o
     strides_ignored = any(judge(cases[i], io[i]) is not None for i in groups["npv_ro"])
@@ -524,7 +582,7 @@ def run(ctx):
                          "that NumPyVector ignores strides (F-C20-3): they would write outside the array" % len(skipped))
     keep = [i for i in range(len(cases)) if io[i] is not None]
     cases, mo, io, mo_cur = [cases[i] for i in keep], [mo[i] for i in keep], [io[i] for i in keep], [mo_cur[i] for i in keep]
-    modelled = [i for i, c in enumerate(cases) if not is_npv(c)]
+    modelled = [i for i, c in enumerate(cases) if not is_dyn(c)]
     agree_fixed = sum(1 for i in modelled if mo[i] == io[i])
     agree_cur = sum(1 for i in modelled if mo_cur[i] == io[i])
     nviol = ndis = nms = 0
@@ -543,22 +601,20 @@ def run(ctx):
                 sig, reason, shrunk = v
                 ctx.violation(sig, {"case": shrunk, "full_case": c, "impl": a, "model": m, "oracle": reason,
                                     "replay_cmd": "bin/check C20 --replay <this file>"})
-        elif is_npv(c):
-            continue
-        elif a != m:
+        elif a != m and not is_dyn(c):
             ndis += 1
             if ndis <= 20:
                 ctx.violation("corr:C20/script", {"broken": "corr:C20/script", "case": c, "impl": a, "model": m,
                                                   "oracle": "accepts impl output"}, found_input=False)
         # the model itself must satisfy the spec interpreter (sanity of the theorems' reading)
-        if not is_npv(c) and "?" not in m and oracle_line(c, "") != m:
+        if not is_dyn(c) and "?" not in m and spec_line(c) != m:
             nms += 1
             if nms <= 5:
-                ctx.notes.append("model/spec-oracle mismatch on `%s`: model %s / oracle %s" % (c, m, oracle_line(c, "")))
+                ctx.notes.append("model/spec-oracle mismatch on `%s`: model %s / oracle %s" % (c, m, spec_line(c)))
     if nms:
         ctx.violation("corr:C20/model-vs-oracle", {"broken": "corr:C20/model-vs-oracle: extracted model and Python oracle disagree on %d cases" % nms,
                                                    "examples": ctx.notes[-5:]}, found_input=False)
-    unmodelled = sum(1 for c, m in zip(cases, mo) if not is_npv(c) and "?" in m.split(" # ")[0])
+    unmodelled = sum(1 for c, m in zip(cases, mo) if not is_tv(c) and not is_dyn(c) and "?" in m.split(" # ")[0])
     n_npv = sum(1 for c in cases if is_npv(c))
     ctx.coverage.update({
         "evaluations": len(cases), "distinct_nontrivial": len(set(cases)),
@@ -569,7 +625,9 @@ def run(ctx):
         "samples": cases[:1] + cases[len(cases) // 3: len(cases) // 3 + 2] + cases[-2:],
         "op_distribution": ops, "model_exception_kinds_hit": exc_hits, "scripts_writing_through_or_beside_an_alias": alias_cases,
         "sizes": sizes, "impl_model_disagreements": ndis, "oracle_rejections": nviol, "model_oracle_mismatches": nms,
-        "scripts_leaving_the_model": unmodelled, "numpyvector_scripts_oracle_only_TEST": n_npv, "exhaustive": False, "traces_validated_against_impl": len(cases),
+        "scripts_leaving_the_model": unmodelled, "numpyvector_scripts": n_npv, "tuplevector_scripts": sum(1 for c in cases if is_tv(c)),
+        "dynamicvector_scripts_oracle_only_TEST": {"dyn (prebuilt /repo/_build _common.so, DynamicVector<double>)": sum(1 for c in cases if c.startswith("dyn ;")),
+                                                   "dynj (DynamicVector<float> bound just-in-time from the checked tree's headers)": sum(1 for c in cases if c.startswith("dynj"))}, "exhaustive": False, "traces_validated_against_impl": len(cases),
         "impl_origin": origin,
         "modelled_scripts": len(modelled), "impl_equals_model_with_fixes_C20_1_2": agree_fixed,
         "impl_equals_model_of_code_as_it_stands": agree_cur,
@@ -589,11 +647,11 @@ def replay(ctx, path):
     case = rep["case"]
     model = V.build_model(ctx)
     env, runner, origin = setup_env(ctx)
-    ns = [case] if is_tv(case) else ["npv"] if is_npv(case) else sorted(set(int(t[1]) for t in split_case(case) if t[0] == "new"))
+    ns = [case] if is_tv(case) else ["npv"] if is_npv(case) else ["dynj"] if is_dyn(case) else sorted(set(int(t[1]) for t in split_case(case) if t[0] == "new"))
     prebuild(ctx, env, runner, ns)
     mo = V.run_cases(ctx, [model], [case], tag="rmodel")
     io = V.run_cases(ctx, impl_cmd(runner), [case], tag="rimpl", timeout=120, env=env)
-    print("case  :", case); print("impl  :", io[0]); print("model :", mo[0]); print("spec  :", oracle_line(case, io[0]))
+    print("case  :", case); print("impl  :", io[0]); print("model :", mo[0]); print("spec  :", spec_line(case, io[0]))
     v = judge(case, io[0])
     print("oracle:", ("REJECTS [%s] %s" % (v[0], v[1])) if v else "accepts")
     return 1 if v else 0
